@@ -781,7 +781,7 @@ def requestEntry (arg : Str) (stacks : List (List Decl)) : Except Err Entry :=
     | .ok none =>
       -- "If we failed to find a versionExpr, we can still use the explicit version"
       match exactLookup arg 0 stacks with
-      | some (i, v) => .ok (.found true i v)
+      | some (i, v) => .ok (.found false i v)
       | none => .ok .nothing
 
 end EupsModel.VersionCmp
